@@ -273,6 +273,16 @@ def finish(p):
                     w._discard()
                 except Exception:
                     pass
+    # python file objects own their descriptor: close them through the object, so that
+    # a later garbage collection cannot close a descriptor number that has been reused
+    for rd in list(getattr(p, 'readers', [])):
+        try:
+            if not rd._f.closed:
+                rd._f.close()
+        except OSError:
+            pass
+        p.fds.pop(rd._fd, None)
+    p.readers = []
     for fd in list(p.fds):
         try:
             O.close(fd)
